@@ -10,6 +10,7 @@ import (
 	"verif/internal/absint"
 	"verif/internal/bdd"
 	"verif/internal/dom"
+	"verif/internal/engine"
 	"verif/internal/ev"
 	"verif/internal/load"
 	"verif/internal/rules"
@@ -37,6 +38,11 @@ func c12(cx *Ctx, r *ev.Report) {
 	} else {
 		r.Undecide("C12/terminates/func=(*CPU).Run", "R-AUTOMATON(Run)", "", err.Error())
 	}
+	// ... and the HALT instruction does set it, whatever else is pending (else a
+	// program that halts would keep Run going for ever)
+	nh := armObligations(cx, r, armSelection{prop: "C12", rule: "HALT-SETS(arm): the HALT instruction sets the halted indication in every state (so Run returns once the program halts)", keyPart: "halt-sets", classes: classSet("halt"),
+		diffKeep: func(a *engine.ArmResult, d engine.Diff) bool { return d.What == "HALT" }})
+	r.AddFloor("halt_arms", nh, 1)
 	// 2. panic sites below Step, Run, and the accessors of the bundled device types
 	fns := map[*ssa.Function]bool{}
 	roots := map[*ssa.Function]bool{cx.E.Step: true, run: true}
